@@ -1,6 +1,7 @@
 (* Table obligation for C05 / C11 over Gen/LinkCalls.v (regenerated from backend/posix/posix.go on every run): a temporary file is
    published by one call of link(), which also closes its descriptor (with_otmpfile.go). A function that called it a second time
-   on the same file would publish through a descriptor number that may by then belong to another request's file. The model
+   on the same file would publish through a descriptor number that may by then belong to another request's file (the table is keyed
+   "function:variable": one function may publish two different files on two of its paths, as DeleteObject does). The model
    (Model/Publish.v, Model/Crash.v) has exactly one publishing step per write; this is the corresponding fact about the source. *)
 From Coq Require Import String List Bool Arith.
 From VGW Require Import Base.GoStr Gen.LinkCalls.
@@ -11,7 +12,7 @@ Definition publishers : list string := ["PutObject"; "CompleteMultipartUpload"; 
 
 Definition link_once (t : list (string * list nat)) : bool :=
   forallb (fun e => Nat.eqb (List.length (snd e)) 1) t &&
-  forallb (fun p => existsb (fun e => String.eqb (fst e) p) t) publishers.
+  forallb (fun p => existsb (fun e => has_prefix (fst e) (p ++ ":")) t) publishers.
 
 Definition link_bad (t : list (string * list nat)) : list (string * list nat) :=
   filter (fun e => negb (Nat.eqb (List.length (snd e)) 1)) t.
